@@ -131,12 +131,49 @@ theorem C11_released_is_free (cfg : Cfg) (s : St) (p : Pkt) (wf : Spec.PktWf p) 
       · rw [hev]; simp [releasedEv, hu]
     · left; rw [hst]; simp [releasedState, hu]
 
+/-- an identifier awaited by no SUBACK / UNSUBACK / PUBACK / PUBREC: `release_packet_id` has no
+    exchange to abandon (fix ba1a812) -/
+def C11.NotAwaited (s : St) (id : Nat) : Prop :=
+  id ∉ s.suback ∧ id ∉ s.unsuback ∧ id ∉ s.puback ∧ id ∉ s.pubrec
+
+instance (s : St) (id : Nat) : Decidable (C11.NotAwaited s id) := by unfold C11.NotAwaited; infer_instance
+
+theorem del_of_not_mem {id : Nat} {l : List Nat} (h : id ∉ l) : del id l = l := by
+  unfold del
+  rw [List.filter_eq_self]
+  intro x hx
+  simp only [ne_eq, decide_not, Bool.not_eq_eq_eq_not, Bool.not_true, decide_eq_false_iff_not]
+  rintro rfl; exact h hx
+
+/-- for such an identifier `release_packet_id` is the internal release of a refusal: the allocator
+    and the announcement, nothing else -/
+theorem releasedStateP_of_notAwaited {s : St} {id : Nat} (h : C11.NotAwaited s id) :
+    releasedStateP s id = releasedState s id := by
+  obtain ⟨h1, h2, h3, h4⟩ := h
+  unfold releasedStateP
+  split
+  · obtain ⟨_, e1, e2, e3, e4, _⟩ := releasedState_fields s id
+    unfold abandonExchange
+    simp only []
+    rw [if_neg (by rw [e3, e4]; exact fun x => x.1.elim h3 h4)]
+    rw [e1, e2, e3, e4, del_of_not_mem h1, del_of_not_mem h2, del_of_not_mem h3, del_of_not_mem h4]
+    conv => rhs; rw [← show ({ releasedState s id with suback := s.suback, unsuback := s.unsuback, puback := s.puback, pubrec := s.pubrec } : St) = releasedState s id from by
+      conv => rhs; rw [← show ({ releasedState s id with suback := (releasedState s id).suback, unsuback := (releasedState s id).unsuback, puback := (releasedState s id).puback, pubrec := (releasedState s id).pubrec } : St) = releasedState s id from rfl]
+      rw [e1, e2, e3, e4]]
+  · unfold releasedState; rw [if_neg (by assumption)]
+
 /-- **C11, "as if the call had not been made".**  A refused `send` leaves the connection in the
     state — and, apart from the error event, with the events — of *not calling `send`* (nothing
     to release) resp. of calling `release_packet_id(id)` instead; hence every continuation
-    (any sequence of further API calls) behaves identically. -/
+    (any sequence of further API calls) behaves identically.
+    Since fix ba1a812 `release_packet_id` also abandons the exchange that awaits `id`, which the
+    refusal does not (it releases the identifier the packet was given, `releaseIfUsed`): the
+    comparison with `release_packet_id` holds for an identifier no exchange awaits (`hown`: the
+    application acquired it for this very packet) — `C11_refused_call_equiv_needs_notAwaited`.  Without
+    `hown` the state is still that of the internal release: `C11_gate_refusal_is_noop`. -/
 theorem C11_refused_call_equiv (cfg : Cfg) (s : St) (p : Pkt) (wf : Spec.PktWf p)
-    (h : Spec.mayTransmit cfg.role s.ver s.status p s.needStore s.offline = false) (ops : List Op) :
+    (h : Spec.mayTransmit cfg.role s.ver s.status p s.needStore s.offline = false) (ops : List Op)
+    (hown : ∀ id, C11.refusalRelease cfg s p = some id → C11.NotAwaited s id) :
     match C11.refusalRelease cfg s p with
     | none =>
         (step cfg s (.send p)).ev = [.error (C11.refusalError cfg s p)] ∧
@@ -155,7 +192,7 @@ theorem C11_refused_call_equiv (cfg : Cfg) (s : St) (p : Pkt) (wf : Spec.PktWf p
     simp only [hrel] at hev hst ⊢
     have hr : step cfg s (.release id) =
         { cfg := cfg, s := releasedState s id, ev := releasedEv s id } := by
-      simp only [step, releasePacketId, releaseIfUsed_eq, List.nil_append]
+      simp only [step, releasePacketId_eqP, releasedStateP_of_notAwaited (hown id hrel), List.nil_append]
     simp only [run, runEvents, hst, hev, hr, List.tail_cons, and_self]
 
 /-! ## C11 (2): soundness of the gate -/
@@ -372,6 +409,23 @@ example : (step C11.exCfg C11.exState (.send C11.exConnack)).ev = [.error 0x184]
     (step C11.exCfg C11.exState (.send C11.exV3Sub)).ev = [.error 0x189, .released 7] ∧
     isUsed (step C11.exCfg C11.exState (.send C11.exV3Sub)).s 7 = false := by
   decide
+/-- `hown` of `C11_refused_call_equiv` holds in the example: identifier 7 is awaited by nothing -/
+example : ∀ id, C11.refusalRelease C11.exCfg C11.exState C11.exV3Sub = some id → C11.NotAwaited C11.exState id := by
+  decide
+/-- **`hown` is needed** (since fix ba1a812): identifier 7 is awaited by a SUBACK and the application
+    gives it to another, refused, packet.  The refusal frees the identifier and leaves `pid_suback`
+    alone; `release_packet_id(7)` would also have abandoned the SUBSCRIBE: the two states differ
+    (only) in `pid_suback`. -/
+theorem C11_refused_call_equiv_needs_notAwaited :
+    let s : St := { C11.exState with suback := [7] }
+    Spec.PktWf C11.exV3Sub ∧
+    Spec.mayTransmit C11.exCfg.role s.ver s.status C11.exV3Sub s.needStore s.offline = false ∧
+    C11.refusalRelease C11.exCfg s C11.exV3Sub = some 7 ∧ ¬ C11.NotAwaited s 7 ∧
+    (step C11.exCfg s (.send C11.exV3Sub)).ev = [.error 0x189, .released 7] ∧
+    (step C11.exCfg s (.release 7)).ev = [.released 7] ∧
+    (step C11.exCfg s (.send C11.exV3Sub)).s.suback = [7] ∧ (step C11.exCfg s (.release 7)).s.suback = [] ∧
+    (step C11.exCfg s (.send C11.exV3Sub)).s = { (step C11.exCfg s (.release 7)).s with suback := [7] } := by
+  decide
 /-- SUBSCRIBE sent by a server-role object: role refusal, identifier released -/
 example : (step ⟨.server, 2⟩ C11.exState (.send C11.exSub)).ev = [.error 0x184, .released 7] ∧
     isUsed (step ⟨.server, 2⟩ C11.exState (.send C11.exSub)).s 7 = false := by
@@ -523,7 +577,7 @@ theorem C11_persistence_flag_step (cfg : Cfg) (s : St) (op : Op) (ns : Bool)
   | setRespTimeout ms => exact ⟨hf, hv, hs⟩
   | acquire => exact ⟨hf, hv, hs⟩
   | register id => exact ⟨hf, hv, hs⟩
-  | release id => exact fin (same _ (PF.K_releaseIfUsed _ id)) hstore
+  | release id => exact fin (same _ (PF.K_releasePacketId _ id)) hstore
   | erase id => exact fin (same _ (PF.K_eraseStoredPublish _ id)) hstore
   | restoreHandled ids => exact ⟨hf, hv, hs⟩
   | restorePackets ps => exact fin (same _ (PF.K_restorePackets ps _)) hstore
